@@ -100,6 +100,7 @@ FUNCS = {
     'mulsign': lambda a, x: a * float((x % 10) - 1),     # running product over {-1, 0, 1}: reaches 0.0 and then -0.0
     # terminators
     't_len': lambda a: len(a),
+    'nullable': lambda a, x: None if x % 10 == 2 else ((a[0] if a is not None else 0) + x,),   # the fold legitimately passes through None
     't_neg': lambda a: -a,
     't_wrap': lambda a: ('end', a if not isinstance(a, list) else list(a)),
 }
@@ -113,6 +114,7 @@ SEEDS = {
     'emptydict': lambda: {},
     'pair00': lambda: (0, 0),
     '1.0': lambda: 1.0,
+    'tup100': lambda: (100,),
 }
 
 
